@@ -90,6 +90,7 @@ SPEC = dict(
         'construction of the stop callback on the receiver\'s token does not throw (subscribe() is noexcept)',
         'the stop callback is invoked at most once per registration, and callback_.destruct() returns only after a concurrent invocation on another thread has returned (C03, group stop_token)',
         'inplace_stop_source::request_stop() of the adapter\'s source is an event stub (group stop_token): the erased operation\'s callbacks run inside it and may complete it synchronously',
+        'FINDING (not repaired): with a foreign stop-token type the adapter\'s inplace_stop_source is a member of _op_for and its forwarding callback calls source.request_stop() without pinning the operation; an erased operation that completes from inside that call lets the receiver destroy the source while its request_stop() is still running (heap-use-after-free, probes/native/any_sender_of_adapter_request_stop_uaf.cpp). The obligation is unit forward_callback_source_outlives_request_stop, tier=thorough only',
         'the receiver may destroy the operation as soon as it has been completed; the operation\'s destructor then runs ~inplace_stop_token_adapter_subscription (unit subscription_dtor: no second destruct)',
         'constructor: rec_, subscription_ (default member initialiser) and state_ are initialised in declaration order (checked: subscription_ is declared before state_); if connecting the erased sender throws, the already constructed subscription_ is destroyed (C++ object model, not reached)',
     ],
